@@ -30,6 +30,9 @@ type Case struct {
 	Reuse *reuseCase `json:"reuse,omitempty"`
 	Nest  *nestCase  `json:"nest,omitempty"`
 	Sizes string     `json:"sizes,omitempty"` // pool | async
+	// legs4.go: kind "errvals" (Errs restricts the error values; empty = all) | "probe-env" (Env = the child's variables)
+	Errs []string `json:"errs,omitempty"`
+	Env  []string `json:"env,omitempty"`
 }
 
 type fail struct{ key, what string }
@@ -43,9 +46,9 @@ type det struct {
 	ex       sched.Executor
 	b        *book
 	gates    map[int]chan string
-	open     string              // "" = gated; otherwise every task ends at once with this kind
-	calls    map[int]*pending    // Execute calls by task id
-	accepted []int               // ids in the order Execute returned nil (sync) — submission order
+	open     string           // "" = gated; otherwise every task ends at once with this kind
+	calls    map[int]*pending // Execute calls by task id
+	accepted []int            // ids in the order Execute returned nil (sync) — submission order
 	acc      map[int]bool
 	rejected map[int]bool
 	shut     *pending // the Shutdown call, if any
